@@ -5,6 +5,7 @@ package props
 // Inputs
 //   fa <width> <typ> <alphabet> {<name> <desc> <letters> <quals>}*
 //   fq <qid> <typ> <enc> <alphabet> {<name> <desc> <letters> <quals>}*
+//   fap <width> <IDPrefix> <SeqPrefix> <typ> <alphabet> {...}*      (prefixes in hex; compared with the model, the round trip is not demanded)
 //   fva <width|-> <prec|-> <typ> <alphabet> <name> <desc> <letters> <quals>
 //   fvq <plus> <prec|-> <typ> <enc> <alphabet> <name> <desc> <letters> <quals>
 //
@@ -62,6 +63,11 @@ func c01Exec(input string) string {
 	case "fa":
 		typ, alpha, rs = f[2], builtinByName(f[3]), sioParseRecs(f[4:])
 		w = fasta.NewWriter(&buf, hx.Atoi(f[1]))
+	case "fap": // fa with the exported prefix fields of writer and reader set by the user
+		typ, alpha, rs = f[4], builtinByName(f[5]), sioParseRecs(f[6:])
+		fw := fasta.NewWriter(&buf, hx.Atoi(f[1]))
+		fw.IDPrefix, fw.SeqPrefix = hx.Unhex(f[2]), hx.Unhex(f[3])
+		w = fw
 	case "fq":
 		typ, enc, alpha, rs = f[2], sioEnc(f[3]), builtinByName(f[4]), sioParseRecs(f[5:])
 		fw := fastq.NewWriter(&buf)
@@ -83,6 +89,8 @@ func c01Exec(input string) string {
 	var calls string
 	if f[0] == "fa" {
 		calls = sioReadFasta(data, typ, alpha)
+	} else if f[0] == "fap" {
+		calls = sioReadFastaPfx(data, typ, alpha, hx.Unhex(f[2]), hx.Unhex(f[3]))
 	} else {
 		calls = sioReadFastq(data, typ, alpha, enc)
 	}
@@ -183,6 +191,13 @@ func c01Gen(g *hx.Gen) {
 		typ := "s"
 		if g.Chance(0.5) {
 			typ = "q"
+		}
+		if g.Chance(0.03) {
+			pp := sioPrefixPairs[g.Intn(len(sioPrefixPairs))]
+			width := sioWidth(g)
+			rs := sioRecords(g, alpha, width, typ == "q", alphabet.Sanger, 3)
+			g.Case(fmt.Sprintf("fap %d %s %s %s %s", width, hx.Hex([]byte(pp[0])), hx.Hex([]byte(pp[1])), typ, alpha) + sioRecTokens(rs))
+			continue
 		}
 		if g.Chance(0.45) {
 			width := sioWidth(g)
